@@ -1,1 +1,95 @@
-// placeholder
+//! C02 (kernel) — `build_trie` computes the specification's root for every key set of a shape,
+//! and its visitor stream walks the specification's trie.
+
+use crate::shape::*;
+use crate::symhash::*;
+use bitvec::prelude::*;
+use nomt_core::trie::{KeyPath, LeafData, Node, ValueHash, TERMINATOR};
+use nomt_core::trie_pos::TriePosition;
+use nomt_core::update::{build_trie, WriteNode};
+
+/// build_trie(skip = 0) over the pairs of a shape == spec root, the last visited node is the
+/// root and the number of visited leaves equals the number of pairs.
+pub fn build_equals_spec<U: Tree>(window: usize) {
+    let p = pairs::<U>(window);
+    let want = U::root::<SymHasher>(&p.keys, &p.vals, &ALL);
+    let mut ops = [([0u8; 32], [0u8; 32]); MAXK];
+    let mut i = 0;
+    while i < p.n {
+        ops[i] = (p.keys[i], p.vals[i]);
+        i += 1;
+    }
+    let mut leaves = 0usize;
+    let mut last: Node = [0xffu8; 32];
+    let got = build_trie::<SymHasher>(0, ops[..p.n].iter().cloned(), |w: WriteNode| {
+        if let WriteNode::Leaf { .. } = &w {
+            leaves += 1;
+        }
+        last = w.node();
+    });
+    assert!(got == want, "build_trie root differs from the specification's root");
+    assert!(last == got, "root not visited last");
+    assert!(leaves == p.n);
+    kani::cover!(true, "reached");
+}
+
+/// The visitor's (up, down) stream, replayed on a TriePosition, never panics, writes each leaf at a
+/// prefix of its key and ends at the sub-trie root.
+pub fn visitor_contract<U: Tree>(window: usize) {
+    let p = pairs::<U>(window);
+    let mut ops = [([0u8; 32], [0u8; 32]); MAXK];
+    let mut i = 0;
+    while i < p.n {
+        ops[i] = (p.keys[i], p.vals[i]);
+        i += 1;
+    }
+    let mut pos = TriePosition::new();
+    let _ = build_trie::<HavocHasher>(0, ops[..p.n].iter().cloned(), |w: WriteNode| {
+        if w.up() {
+            pos.up(1);
+        }
+        let d = w.down();
+        let mut j = 0;
+        while j < d.len() {
+            pos.down(d[j]);
+            j += 1;
+        }
+        if let WriteNode::Leaf { leaf_data, .. } = &w {
+            assert!(pos.subtrie_contains(&leaf_data.key_path));
+        }
+    });
+    assert!(pos.depth() == 0 || p.n <= 1, "visitor does not end at the sub-trie root");
+    kani::cover!(true, "reached");
+}
+
+macro_rules! bt {
+    ($name:ident, $t:ty, $w:expr) => {
+        #[kani::proof]
+        pub fn $name() {
+            build_equals_spec::<$t>($w)
+        }
+    };
+}
+macro_rules! vc {
+    ($name:ident, $t:ty, $w:expr) => {
+        #[kani::proof]
+        pub fn $name() {
+            visitor_contract::<$t>($w)
+        }
+    };
+}
+
+bt!(c02_bt_e, S0, 8);
+bt!(c02_bt_s1, S1, 8);
+bt!(c02_bt_s2d0, S2D0, 8);
+bt!(c02_bt_s2d1, S2D1L, 8);
+bt!(c02_bt_s2d1r, S2D1R, 8);
+bt!(c02_bt_s2d2, S2D2, 8);
+bt!(c02_bt_s3a, S3A, 8);
+bt!(c02_bt_s3b, S3B, 8);
+bt!(c02_bt_s3c, S3C, 8);
+bt!(c02_bt_s4a, S4A, 8);
+bt!(c02_bt_s4b, S4B, 8);
+vc!(c02_vc_s2d1, S2D1L, 8);
+vc!(c02_vc_s3a, S3A, 8);
+vc!(c02_vc_s3c, S3C, 8);
